@@ -59,8 +59,10 @@ FreshState ==
    snap   |-> {},     \* upstream blocks that were outstanding when the previous API call returned
    over   |-> FALSE]  \* execution ended abnormally
 
-Blk(b) == st.blocks[b + 1]
 HasBlk(b) == b >= 0 /\ b < Len(st.blocks)
+\* total: an address outside every block the world handed out maps to a dead, empty block of no source
+NoBlk == [size |-> 0, al |-> 0, src |-> -1, live |-> FALSE, st |-> FALSE]
+Blk(b) == IF HasBlk(b) THEN st.blocks[b + 1] ELSE NoBlk
 Obj(o) == st.objs[o + 1]
 LiveBlocksOf(s, src) == {i \in 1..Len(s.blocks) : s.blocks[i].live /\ ~s.blocks[i].st /\ s.blocks[i].src = src}
 MaxOf(S) == CHOOSE m \in S : \A k \in S : k <= m
@@ -120,6 +122,14 @@ OnNew(e) ==
 
 -----------------------------------------------------------------------------
 (* allocation *)
+\* node slots of a pool's block that no live allocation touches; the ordered free list keeps every free
+\* node sorted by address, so an array fits without growth iff `need` such slots are adjacent in one block
+SlotFree(i, off, ns) == \A a \in st.live : ~(a.b = i - 1 /\ a.off < off + ns /\ off < a.off + a.len)
+RunFree(o, mine, need) ==
+  \E i \in mine : LET cnt == (st.blocks[i].size - o.hdr) \div o.ns
+                  IN \E k0 \in 0..(cnt - need) : \A j \in 0..(need - 1) : SlotFree(i, o.hdr + (k0 + j) * o.ns, o.ns)
+OrderedList(o) == o.fam = "pool" /\ (o.type = "array" \/ (o.type = "node" /\ cfg.dbl = 1))
+Justified(o, mine) == st.inj > 0 \/ (o.srck = "fixed" /\ mine # {}) \/ o.srck \in {"static", "virtual"}
 OnAlloc(e) ==
   LET o == Obj(e.o)
       ok == e.r = "ok"
@@ -159,6 +169,10 @@ OnAlloc(e) ==
                 "C03", "ThrowIsLibraryFamily", <<o.fam, e.r>>)
        \cup Chk(~(e.r \in OomFamily) \/ PendK("oom") # {}, "C03", "HandlerCalledFirst", <<o.fam, e.r>>)
        \cup Chk(~(e.r \in SizeFamily) \/ PendK("badsize") # {}, "C03", "HandlerCalledFirst", <<o.fam, e.r>>)
+       \* "able to serve later valid requests": an allocator over a growing source reports exhaustion only
+       \* when its upstream refused in this very call, one over a fixed source only while its block is out
+       \cup Chk(~(e.r \in OomFamily /\ o.fam \in {"pool", "coll", "stack"}) \/ Justified(o, mine),
+                "C03", "FailureIsJustified", <<o.fam, o.srck, e.r, mine>>)
        \* a request that does not fit into what is left must fail, not "succeed" somewhere else
        \cup Chk(~(ok /\ stackLike /\ e.ups = 0 /\ e.cap0 >= 0 /\ (o.fam # "stack" \/ e.t \/ e.b = o.curblk))
                   \/ e.len + 2 * fence <= e.cap0,
@@ -175,10 +189,19 @@ OnAlloc(e) ==
        \cup Chk(~(ok /\ IsPoolLike(o) /\ ~refill) \/ (IF e.op = "n" THEN takenObs = 1 ELSE takenObs >= need),
                 "C04", "CapacityMovesByTaken", <<o.fam, e.op, e.fn0, e.fn1, need>>)
        \cup Chk(~(IsPoolLike(o) /\ e.op = "n" /\ e.fn0 > 0) \/ e.ups = 0, "C04", "NoGrowthWhileNodeFree", <<o.fam, e.fn0, e.ups>>)
+       \cup Chk(~(OrderedList(o) /\ e.op = "a" /\ ~e.t /\ e.ups > 0 /\ need >= 1) \/ ~RunFree(o, {i \in mine : i <= Len(st.blocks) - e.ups}, need),
+                "C04", "NoGrowthWhileRunFree", <<o.type, e.n, e.sz, need, e.fn0, e.ups>>)
        \cup Chk(~(IsPoolLike(o) /\ ~ok) \/ e.fn1 >= e.fn0, "C04", "FailureKeepsCapacity", <<o.fam, e.fn0, e.fn1>>)
        \cup Chk(~(ok /\ stackLike /\ e.ups = 0 /\ e.cap0 >= 0 /\ (o.fam # "stack" \/ e.b = o.curblk)) \/
                   (e.cap0 - e.cap1 >= e.len + 2 * fence /\ e.cap0 - e.cap1 < e.len + 2 * fence + Max(e.al, 1)),
                 "C18", "StackCapacityMovesExactly", <<o.fam, e.cap0, e.cap1, e.len, e.al>>)
+       \* a request that failed without obtaining a block consumed nothing: the figures stay as they were
+       \* (a memory_stack that moved on to a cached block before it failed, and a collection that handed the rest
+       \* of its block to the bucket before its source refused, did consume something: cap1 # cap0 there)
+       \cup Chk(~(~ok /\ e.ups = e.upf /\ o.fam \in {"pool", "coll", "stack"} /\ e.cap1 = e.cap0) \/ e.ncap1 = e.ncap0,
+                "C18", "FailedRequestKeepsNextCapacity", <<o.fam, o.srck, e.r, e.ncap0, e.ncap1>>)
+       \cup Chk(~(~ok /\ e.ups = e.upf /\ o.fam = "pool") \/ e.cap1 = e.cap0,
+                "C18", "FailedRequestKeepsCapacity", <<o.fam, o.srck, e.r, e.cap0, e.cap1>>)
        \* ---- C05: cached blocks are reused before the upstream is asked ----
        \cup Chk(~(o.fam = "stack" /\ e.ups > e.upf /\ o.curblk >= 0)
                   \/ \A i \in mine : (i <= o.curblk + 1 \/ i > Len(st.blocks) - (e.ups - e.upf)),
@@ -360,6 +383,8 @@ OnAblk(e) ==
   IN Result([st EXCEPT !.objs[e.o + 1].used = used2, !.objs[e.o + 1].cach = cach2, !.pend = <<>>, !.inj = 0],
        Chk(ok \/ e.r \in OomFamily \/ (e.r = "throw:injected" /\ st.inj > 0), "C03", "ThrowIsLibraryFamily", <<"arena", e.r>>)
        \cup Chk(~(e.r \in OomFamily) \/ PendK("oom") # {}, "C03", "HandlerCalledFirst", <<"arena", e.r>>)
+       \cup Chk(~(e.r \in OomFamily) \/ Justified(o, LiveBlocksOf(st, o.src)), "C03", "FailureIsJustified",
+                <<"arena", o.srck, e.r, LiveBlocksOf(st, o.src)>>)
        \cup Chk(~(ok /\ fromCache) \/ e.ups = 0, "C05", "CacheReusedBeforeUpstream", <<o.cach, e.ups>>)
        \cup Chk(~ok \/ e.b = exp, "C05", "CachedBlocksComeBackInOrder", <<e.b, exp, o.cach>>)
        \cup Chk(~ok \/ (HasBlk(e.b) /\ Blk(e.b).live /\ Blk(e.b).src = o.src /\ e.off = o.hdr /\ e.size = Blk(e.b).size - o.hdr),
@@ -368,7 +393,7 @@ OnAblk(e) ==
                 <<e.asz1, e.csz1, e.acap1, Len(used2), Len(cach2)>>)
        \cup Chk(ok \/ (e.asz1 = e.asz0 /\ e.csz1 = e.csz0), "C05", "FailureLeavesStackIntact", <<e.asz0, e.asz1, e.csz0, e.csz1>>)
        \cup Chk(~ok \/ e.owns, "C08", "ArenaOwnsExactlyUsedBlocks", <<"fresh block not owned", e.b>>)
-       \cup Chk(~(ok /\ cach2 # <<>>) \/ e.nbs1 = st.blocks[LastOf(cach2) + 1].size - o.hdr, "C18", "NextBlockSizeIsCachedBlock", <<e.nbs1, cach2>>)
+       \cup Chk(~(ok /\ cach2 # <<>>) \/ e.nbs1 = Blk(LastOf(cach2)).size - o.hdr, "C18", "NextBlockSizeIsCachedBlock", <<e.nbs1, cach2>>)
        \cup NoStrayReports("ablk") \cup NoLeakReport("ablk"))
 OnDblk(e) ==
   LET o == Obj(e.o)
